@@ -113,8 +113,50 @@ def add_docstrings(src):
     return ast.unparse(tree) + "\n"
 
 
+def insert_noise(src, seed=0):
+    """Like insert_passes, but the inserted statement is an assignment to a
+    fresh local (`_trace_rn = None`), which no canonicalisation removes: the
+    stand-in for an added log line or counter."""
+    return insert_passes(src, seed, make=lambda: ast.Assign(
+        targets=[ast.Name(id="_trace_rn", ctx=ast.Store())],
+        value=ast.Constant(value=None)))
+
+
+def insert_passes(src, seed=0, make=ast.Pass):
+    """Insert `pass` statements at the start of every function and between
+    statements of every block (a stand-in for added logging / comments that
+    became statements)."""
+    rng = random.Random(seed + 17)
+    tree = ast.parse(src)
+
+    def has_doc(body):
+        return bool(body) and isinstance(body[0], ast.Expr) \
+            and isinstance(body[0].value, ast.Constant) and isinstance(body[0].value.value, str)
+
+    for n in ast.walk(tree):
+        for fld in ("body", "orelse", "finalbody"):
+            blk = getattr(n, fld, None)
+            if not isinstance(blk, list) or not blk or not all(isinstance(x, ast.stmt) for x in blk):
+                continue
+            if isinstance(n, (ast.Module, ast.ClassDef)):
+                continue
+            new = []
+            start = 1 if (fld == "body" and has_doc(blk)) else 0
+            for i, st in enumerate(blk):
+                if i >= start and rng.random() < 0.5:
+                    new.append(make())
+                new.append(st)
+            if rng.random() < 0.3 and not isinstance(blk[-1], (ast.Return, ast.Raise, ast.Continue, ast.Break)):
+                new.append(make())
+            setattr(n, fld, new)
+    ast.fix_missing_locations(tree)
+    return ast.unparse(tree) + "\n"
+
+
 TWINS = {
     "unparse": lambda src, seed: unparse_roundtrip(src),
     "docstrings": lambda src, seed: add_docstrings(src),
     "alpha": lambda src, seed: alpha_rename(src, seed),
+    "passes": lambda src, seed: insert_passes(src, seed),
+    "noise": lambda src, seed: insert_noise(src, seed),
 }
